@@ -193,11 +193,18 @@ def fcidump(led):
     _, utext = source.module_ast("iodata.utils")
     sfe = source.find_def("iodata.utils", "set_four_index_element")
     params = [a.arg for a in sfe.args.args]  # four_index_object, i0, i1, i2, i3, value
-    perms = []
-    for st in sfe.body:
-        if isinstance(st, ast.Assign) and isinstance(st.targets[0], ast.Subscript) and isinstance(st.targets[0].slice, ast.Tuple):
-            names = [e.id for e in st.targets[0].slice.elts]
-            perms.append(tuple(params.index(nm) - 1 for nm in names))
+    # the index orders the function assigns, observed by running the real function on a recording object with the four
+    # distinct indices 0, 1, 2, 3 (independent of how the assignments are spelled in the source)
+    class _Rec:
+        def __init__(self):
+            self.keys = []
+
+        def __setitem__(self, key, val):
+            self.keys.append(tuple(int(k) for k in key))
+
+    recd = _Rec()
+    source.import_repo("iodata.utils").set_four_index_element(recd, 0, 1, 2, 3, 1.0)
+    perms = list(dict.fromkeys(recd.keys))
     ok_group = len(set(perms)) == 8 and tuple(range(4)) in perms and all(tuple(p[q[k]] for k in range(4)) in perms for p in perms for q in perms)
     rec(led, "fcidump@iodata.utils.set_four_index_element::the-eight-assigned-index-orders-form-a-group", ok_group, f"{perms}", witness={"permutations": perms}, kind="ground")
 
